@@ -565,6 +565,12 @@ class SimQueue(object):
                 raise _realqueue.Full()
         self.items.append(item)
         self.nput += 1
+        # the consumer may run the moment the item is there - before the producer executes its
+        # next statement (publish-then-initialise races need no finer pre-emption than this)
+        if self.yield_after_put:
+            self.sim.yield_('q.put-done')
+
+    yield_after_put = True
 
     def put_nowait(self, item):
         self.put(item, False)
